@@ -97,6 +97,8 @@ pub struct Oracle {
     resumed_at: Option<u64>,
     reqs_done: bool,
     cancel_pending: bool,
+    /// the sending user's cancel request was accepted by an active transaction
+    user_cancelled: bool,
     fin_pdu_seen: bool,
     owed: Vec<(u64, u64)>,
     owed_md: bool,
@@ -138,6 +140,7 @@ impl Oracle {
             resumed_at: None,
             reqs_done: false,
             cancel_pending: false,
+            user_cancelled: false,
             fin_pdu_seen: false,
             owed: Vec::new(),
             owed_md: false,
@@ -635,8 +638,19 @@ impl Oracle {
         let flag = if self.cfg.large { FileSizeFlag::Large } else { FileSizeFlag::Small };
         // ---- C10: a user cancel of an active send transaction tells the peer: an EOF with the cancel
         //      condition goes out before the transaction has nothing left to send
+        // ... and from then on it transmits no file data and no Metadata any more (a cancelled sender that went on
+        // answering retransmission requests could complete the file at the receiver before the EOF(cancel) gets
+        // there - seeded change C10f)
+        if self.user_cancelled && t[0] != "CANCEL" {
+            for (_, p) in &o.pdus {
+                if matches!(&p.payload, PDUPayload::FileData(_) | PDUPayload::Directive(Operations::Metadata(_))) {
+                    self.fail(orc, "C10", k, "the send transaction transmitted file data / Metadata after its user had cancelled it".into());
+                }
+            }
+        }
         if t[0] == "CANCEL" && o.res == "ok" && o.st == TransactionState::Active {
             self.cancel_pending = true;
+            self.user_cancelled = true;
         }
         if o.pdus.iter().any(|(_, p)| matches!(&p.payload, PDUPayload::Directive(Operations::EoF(e)) if e.condition != Condition::NoError)) {
             self.cancel_pending = false;
